@@ -180,6 +180,24 @@ func (e *fnEnc) call0(v ssa.Value, c *ssa.CallCommon, instr ssa.Instruction) {
 			}
 		}
 	}
+	if e.vc.Opt.SafetyKinds["lock"] && !e.inlineAssume && len(c.Args) > 0 {
+		if pt, ok := c.Args[0].Type().Underlying().(*types.Pointer); ok && fn.Signature.Recv() != nil {
+			if g := e.vc.P.guardFor(pt.Elem()); g != nil {
+				if li := e.vc.P.Lock[fn]; li != nil && (li.needs || li.takes) {
+					if _, isGo := instr.(*ssa.Go); !isGo {
+						h := e.heldTerm(pt.Elem(), g, args[0])
+						if li.needs {
+							name := e.vc.ordinal(fmt.Sprintf("%s#lock:call.%s", FuncKey(e.fn), fn.Name()))
+							e.vc.oblige(&Obligation{Name: name, Kind: "lock", Guard: e.guard(), Cond: h, Props: e.vc.Opt.SafetyProps, Pos: instr.Pos(), Src: fn.Name() + " touches guarded state: caller must hold " + g.Mutex})
+						} else {
+							name := e.vc.ordinal(fmt.Sprintf("%s#lock:reacquire.%s", FuncKey(e.fn), fn.Name()))
+							e.vc.oblige(&Obligation{Name: name, Kind: "lock", Guard: e.guard(), Cond: sNot(h), Props: e.vc.Opt.SafetyProps, Pos: instr.Pos(), Src: fn.Name() + " takes " + g.Mutex + " itself: calling it with the mutex held deadlocks"})
+						}
+					}
+				}
+			}
+		}
+	}
 	contract := e.vc.P.Contract(fn)
 	switch {
 	case contract != nil && !contract.Pure:
